@@ -113,6 +113,16 @@ def base_cases(ctx, seed, tier):
     # AVL tree
     for _ in range(10 if not big else 40):
         out.append(("tree", r.choice("dn") + " " + ops(r.randrange(4, 30), r.choice([6, 20]), r.choice([0.6, 0.85]))))
+    # containers drained completely (every element removed, in some order) and only then freed; also drained, refilled
+    for n in (1, 2, 3, 4, 6, 9):
+        for _ in range(2 if n > 1 else 1):
+            order = list(range(1, n + 1))
+            r.shuffle(order)
+            drain = " ".join("i%d" % k for k in range(1, n + 1)) + " " + " ".join("r%d" % k for k in order)
+            out.append(("tree", r.choice("dn") + " " + drain))
+            out.append(("hash", r.choice("mcl") + " " + drain))
+            out.append(("btree64", drain))
+            out.append(("tree", "n " + drain + " ! i1 i2 r1"))
     for size in (0, 1, 2, 100, 4096, 70000, 2**31, 2**31 + 1, 0xC0000000, 2**32 - 1):
         out.append(("ring", str(size)))
     strs = ["", "a", "/", "a/b", "/a/../b/./c//", "../x", "a.b/c.d", "//", "~/x$ZIXV/y", "$ZIXV$ZIXV:~", "no refs at all",
